@@ -262,7 +262,9 @@ def showEnv (env : List (Bytes × Bytes)) : String :=
   String.intercalate "," (items.mergeSort (fun a b => decide (a ≤ b)))
 
 def showReq (r : Req.Request) : String :=
-  s!"id={r.id} role={r.role} flags={r.flags.toNat} env={showEnv r.env}"
+  -- `acc=ok`: the accessor API (env_len / contains_var / get_var / get_var_str) agrees with the iterator — in the model the
+  -- environment *is* the association list, so there is nothing else it could say
+  s!"id={r.id} role={r.role} flags={r.flags.toNat} env={showEnv r.env} acc=ok"
 
 def showIntoRequest (p : Req.Parser) : String :=
   match p.intoRequest with
@@ -301,6 +303,18 @@ def stepParser (st : DState) (args : List String) : Option (DState × String) :=
     | .req p =>
       match p.intoStreamParser with
       | .ok sp => some ({ st with cur := .str sp }, s!"ok {showReq sp.request} {showStrState sp}")
+      | .error e => some ({ st with cur := .none }, s!"err {showPErr e}")
+    | _ => some (st, "no-parser")
+  | ["req.to_stream_new", b, mc] => do
+    let b ← natArg b
+    let mc ← natArg mc
+    match st.cur with
+    | .req p =>
+      match p.intoRequest with
+      | .ok (r, left) =>
+        -- `stream::Parser::new(config, request)` = `from_parser` with a fresh, empty buffer of the aligned size
+        let sp := Str.Parser.fromParser (alignedBufsize b) r [] mc
+        some ({ st with cur := .str sp }, s!"ok {showReq sp.request} {showStrState sp} left={hexOrDash left}")
       | .error e => some ({ st with cur := .none }, s!"err {showPErr e}")
     | _ => some (st, "no-parser")
   | ["str.parse", h, d] => do
